@@ -48,11 +48,15 @@ type relState struct {
 	// the threshold it was created with) -- the value the response callback of that batch is judged by,
 	// whatever the owning module did to the context's threshold since
 	batchThr map[string]uint32
+	// C03: the block time at which each binding was last SEEN to turn unavailable (by the owner's
+	// disable or by a slash), kept by the monitor itself: the refund deadline is judged by it, not
+	// by the DisabledTime field the implementation stored
+	disabledAt map[bindKey]int64
 }
 
 func (m *Monitors) relInit() *relState {
 	if m.rel == nil {
-		m.rel = &relState{reqs: map[string]*reqTrack{}, k3ctx: map[string]bool{}, batchThr: map[string]uint32{}}
+		m.rel = &relState{reqs: map[string]*reqTrack{}, k3ctx: map[string]bool{}, batchThr: map[string]uint32{}, disabledAt: map[bindKey]int64{}}
 	}
 	return m.rel
 }
@@ -1515,6 +1519,21 @@ func (m *Monitors) c12cb(o *Op, res string, f *stepFacts, pre *Pre, s *Snap) {
 		switch {
 		case !inPre:
 			st.batchThr[id] = y.ResponseThreshold
+		case y.BatchCounter == x.BatchCounter && y.BatchCounter > 0 && x.BatchState == types.BATCHRUNNING && y.BatchState == types.BATCHCOMPLETED:
+			// a batch is completed exactly when its last response arrives or when its expiry block ends
+			m.evals["C12.done"]++
+			lastResp := y.BatchRequestCount > 0 && y.BatchResponseCount == y.BatchRequestCount && y.BatchResponseCount == x.BatchResponseCount+1
+			atExpiry := false
+			if h, ok := ps.ExpH[id]; ok && f.isEB && h == f.H {
+				atExpiry = true
+			}
+			if t := m.ctxSeen[id]; t != nil && t.lastStart >= 0 && f.isEB && f.H != t.lastStart+t.toutAtLast {
+				atExpiry = false // the expiry that fired is not this batch's own (start + timeout in force at the start)
+			}
+			if !lastResp && !atExpiry {
+				m.fail("C12", "%sbatch %d of context %s completed in a %s step at height %d with %d of %d answered: neither its last response nor its expiry block",
+					m.tagCtx(id), y.BatchCounter, ctxLine([]byte(id)), o.Kind, f.H, y.BatchResponseCount, y.BatchRequestCount)
+			}
 		case y.BatchCounter != x.BatchCounter:
 			st.batchThr[id] = x.ResponseThreshold // EndBlock changes no terms: the threshold the decision was taken with
 			if y.BatchResponseThreshold != x.ResponseThreshold {
@@ -1589,6 +1608,16 @@ func (m *Monitors) c13WdFrame(o *Op, res string, pre *Pre, s *Snap) {
 // leave it (other than by a slash) only as the refund of the ENTIRE deposit to the binding's owner;
 // a bind never lands on an existing binding (C15: a binding exists at most once per service and provider).
 func (m *Monitors) c03Step(o *Op, res string, pre *Pre, s *Snap, bal map[int64]*big.Int, dep *big.Int) {
+	st := m.relInit()
+	for k, nb := range s.Binds {
+		pb, existed := pre.snap.Binds[k]
+		switch {
+		case !nb.Available && (!existed || pb.Available):
+			st.disabledAt[k] = pre.now // turned unavailable in this step (message or EndBlock of the block at pre.now)
+		case nb.Available:
+			delete(st.disabledAt, k)
+		}
+	}
 	if res != "ok" {
 		return
 	}
@@ -1612,6 +1641,17 @@ func (m *Monitors) c03Step(o *Op, res string, pre *Pre, s *Snap, bal map[int64]*
 			return
 		}
 		d := amountOf(pb.Deposit)
+		// a refund succeeds only for an unavailable binding with a non-zero deposit, at or after the
+		// disabling time (as this monitor saw it) plus the arbitration and complaint periods
+		if pb.Available || d.Sign() == 0 {
+			m.fail("C03", "refund accepted for a binding that is available=%v with deposit %s", pb.Available, d)
+		}
+		if at, seen := m.relInit().disabledAt[k]; seen && !pb.Available {
+			deadline := at + int64(m.r.cfg.Arb) + int64(m.r.cfg.Compl)
+			if pre.now < deadline {
+				m.fail("C03", "refund accepted at block time %d, before the disabling time %d plus the arbitration and complaint periods (%d)", pre.now, at, deadline)
+			}
+		}
 		owner := a.atomOfAddr(pb.Owner)
 		if delta(owner).Cmp(d) != 0 || new(big.Int).Neg(depDelta).Cmp(d) != 0 {
 			m.fail("C03", "refund of deposit %s: owner %d received %s, the deposit account paid %s", d, owner, delta(owner), new(big.Int).Neg(depDelta))
